@@ -117,8 +117,17 @@ func (tf *TextField) Reset() {
 
 func (tf *TextField) InsertStringAtCursor(s string) vxfw.Command {
 	tf.insertStringAtCursor(s)
-	tf.n = graphemeCountInString(tf.Value)
+	tf.recount()
 	return vxfw.ConsumeAndRedraw()
+}
+
+// recount refreshes the cached grapheme count after an edit and keeps the
+// cursor inside the text
+func (tf *TextField) recount() {
+	tf.n = graphemeCountInString(tf.Value)
+	if tf.cursor > tf.n {
+		tf.cursor = tf.n
+	}
 }
 
 func (tf *TextField) CursorTo(i uint) vxfw.Command {
@@ -159,6 +168,7 @@ func (tf *TextField) DeleteCharRightOfCursor() vxfw.Command {
 		next.WriteString(cluster)
 	}
 	tf.Value = next.String()
+	tf.recount()
 	return vxfw.ConsumeAndRedraw()
 }
 
@@ -187,6 +197,7 @@ func (tf *TextField) DeleteCharLeftOfCursor() vxfw.Command {
 	}
 	tf.Value = next.String()
 	tf.cursor -= 1
+	tf.recount()
 	return vxfw.ConsumeAndRedraw()
 }
 
@@ -212,6 +223,7 @@ func (tf *TextField) DeleteCursorToEndOfLine() vxfw.Command {
 		next.WriteString(cluster)
 	}
 	tf.Value = next.String()
+	tf.recount()
 	return vxfw.ConsumeAndRedraw()
 }
 
